@@ -500,6 +500,13 @@ def exc_id(e):
             # first sighting: the innermost scheduler whose co_run raised it
             ids[id(e)] = (CUR.get(), e)          # keep the object alive: ids are not reused
         return "timeout:" + str(ids[id(e)][0])
+    if not isinstance(e, (Hang, asyncio.CancelledError)) and CUR.get() is not None:
+        # an exception of the orchestration code itself (a verbose message that cannot be printed, say): it belongs to
+        # the innermost scheduler out of whose co_run it first came
+        ids = STATE.setdefault("orch_ids", {})
+        if id(e) not in ids:
+            ids[id(e)] = (CUR.get(), e)
+        return "orch:" + str(ids[id(e)][0])
     return "other:%s:%s" % (type(e).__name__, e)
 
 
@@ -691,6 +698,7 @@ def run(sc, linger=None, shutdown_again=True):
     STATE["taskinfo"] = {}
     STATE["cancelled"] = set()
     STATE["timeout_ids"] = {}
+    STATE["orch_ids"] = {}
     loop = VLoop()
     STATE["loop"] = loop
     asyncio.set_event_loop(loop)
